@@ -36,9 +36,13 @@ def run(ck):
     rule_T(ck, lib, sk)
 
 
-def eoi_fact(x, inp_terms=None):
-    """An end-of-input condition on the path: -> description or None"""
+def eoi_fact(x, inp_terms=None, forward=False):
+    """An end-of-input condition on the path: -> description or None.
+    forward=True (used where the question is "was Incomplete raised under an end-of-input condition"): an empty parser
+    remainder counts as one. For the converse question ("does an end-of-input test lead to Incomplete") it does not: a
+    parser may find its remainder empty and still succeed (white space at the very end of the input)."""
     empt = {}
+    fwd = None
     for c in x.conds:
         if c[0] == "is" and c[2] == PE + "Incomplete" and c[3] is True and c[1][0] == "payload" and c[1][2] == ERR:
             return "a sub-parser reported Incomplete (re-raised)"
@@ -61,10 +65,14 @@ def eoi_fact(x, inp_terms=None):
             empt.setdefault(c[1][2][0][1], set()).add(0)
         if c[0] == "empty" and c[2] is True and c[1][0] == "tproj":
             empt.setdefault(c[1][1], set()).add(c[1][2])
+            if forward and c[1][2] == 0 and c[1][1][0] == "payload":
+                fwd = "the remainder of a parser matches `[]` (is empty)"
+        elif c[0] == "empty" and c[2] is True and looks_like_remainder(c[1]):
+            return "the remainder matches `[]` (is empty)"
     for k, v in empt.items():
         if v >= {0, 1}:
             return "both the taken part and the remainder of a take_while are empty"
-    return None
+    return fwd
 
 
 def looks_like_remainder(t):
@@ -87,7 +95,7 @@ def rule_I(ck, lib, sk):
             v = x.value
             if x.kind in ("return", "err") and v is not None and v[0] == "ctor" and v[1] == ERR and v[2][0] == ("ctor", PE + "Incomplete", ()):
                 n += 1
-                fact = eoi_fact(x)
+                fact = eoi_fact(x, forward=True)
                 ck.judge(fact is not None, "C12-I", "%s:incomplete#%d" % (path.split("::")[-1], i), "Incomplete raised under: %s" % fact,
                          "Incomplete is raised on a path without an end-of-input condition: %s" % pathsum.show_exit(x)[:400])
     ck.floor("C12-I", "Incomplete construction paths", n, 4)
